@@ -162,7 +162,10 @@ def thorough_extras(runs, findings, workdir, seed, pid):
 
 
 def find_counterexample(failure, workdir):
-    return None
+    """A unit may carry its own search for a failing input (`unit.counterexample(failure, workdir) -> text | None`); the text is only
+    returned when the input was run against the real code and misbehaved there."""
+    cb = getattr(failure.unit, 'counterexample', None)
+    return cb(failure, workdir) if cb else None
 
 
 def replay(pid, path):
